@@ -90,6 +90,7 @@ type witness struct {
 	Model   *lakeh.AbsModel `json:"model"`
 	History lakeh.History   `json:"history"`
 	Issue   lakeh.Issue     `json:"issue"`
+	Warm    bool            `json:"warm,omitempty"`
 }
 
 func opKinds(h lakeh.History) string {
@@ -105,6 +106,10 @@ func opKinds(h lakeh.History) string {
 }
 
 func report(c *core.Ctx, m *lakeh.AbsModel) func(h lakeh.History, upto int, is lakeh.Issue) {
+	return reportW(c, m, false)
+}
+
+func reportW(c *core.Ctx, m *lakeh.AbsModel, warm bool) func(h lakeh.History, upto int, is lakeh.Issue) {
 	return func(h lakeh.History, upto int, is lakeh.Issue) {
 		hh := append(lakeh.History(nil), h[:upto]...)
 		switch is.Kind {
@@ -116,7 +121,7 @@ func report(c *core.Ctx, m *lakeh.AbsModel) func(h lakeh.History, upto int, is l
 		default:
 			last := hh[len(hh)-1].Op
 			c.Violate(is.Kind+":"+last+":"+m.ObjMode, fmt.Sprintf("%s [pool order %s, objects %s; history: %s]", is.Detail, m.Dir, m.ObjMode, hh),
-				witness{Model: m, History: hh, Issue: is})
+				witness{Model: m, History: hh, Issue: is, Warm: warm})
 		}
 	}
 }
@@ -131,7 +136,7 @@ func run(c *core.Ctx) error {
 		if _, err := c.ReplayWitness(&w); err != nil {
 			return err
 		}
-		rp := &lakeh.Replayer{C: c, M: w.Model, Ctx: ctx, OnIssue: report(c, w.Model)}
+		rp := &lakeh.Replayer{C: c, M: w.Model, Ctx: ctx, Warm: w.Warm, OnIssue: reportW(c, w.Model, w.Warm)}
 		return rp.ReplayAll([]lakeh.History{w.History})
 	}
 	for _, m := range models(c) {
@@ -153,6 +158,28 @@ func run(c *core.Ctx) error {
 		if len(hs) > 0 {
 			c.Sample(map[string]any{"model": m.Name, "history": hs[len(hs)/2].String()})
 			c.Sample(map[string]any{"model": m.Name, "history": hs[len(hs)-1].String()})
+		}
+	}
+	// the same contents through ONE long-lived handle (warm journal and snapshot caches, as in
+	// the service), judged after every step by a fresh handle as well
+	{
+		m := lakeh.WarmModel(c.Quick())
+		hs, res := lakeh.GenHistories(c, m, "", 8)
+		if res == nil {
+			return nil
+		}
+		if c.Quick() {
+			hs = lakeh.Sub(hs, 700, c.Seed)
+		}
+		rp := &lakeh.Replayer{C: c, M: m, Ctx: ctx, Warm: true, OnIssue: reportW(c, m, true)}
+		if err := rp.ReplayAll(hs); err != nil {
+			return err
+		}
+		c.Add("traces_validated_against_impl", int64(len(hs)))
+		c.Add("replayed_steps", rp.Steps)
+		c.Logf("%s: TLC %d states, %d histories replayed through one long-lived handle, %d steps", m.Name, res.Distinct, len(hs), rp.Steps)
+		if len(hs) > 0 {
+			c.Sample(map[string]any{"model": m.Name, "history": hs[len(hs)/2].String()})
 		}
 	}
 	// longer random histories (simulation), warm-cache-free tree replay again
